@@ -1,5 +1,5 @@
 /-
-Hand-written model of emulator/bus/bus.go (`Bus.Attach`, `EaRead`, `EaWrite`, `EaDump`).
+Hand-written model of emulator/bus/bus.go (`Bus.Attach`, `EaRead`, `EaWrite`, `EaRead24_wrap`, `EaDump`).
 Tied to the Go code by the correspondence run `vh bus` (differential, via ModelDrv).
 
 The segment table has 2^20 entries of 16 bytes; a Go index beyond it panics, as does a nil entry:
@@ -25,6 +25,17 @@ def Bus.attach (b : Bus) (m start end_ : Nat) : Bus × AttachRes :=
 /-- which memory serves a read or write of address `a` (it is handed the address `a` itself) -/
 def Bus.route (b : Bus) (a : Nat) : Option Nat :=
   if a < 16777216 then b.seg (a / 16) else none
+
+/-- `EaRead24_wrap(bank, addr)`: three bytes at `bank:addr`, `bank:addr+1`, `bank:addr+2`, the 16-bit offset wrapping
+inside the bank; the three memories are looked up first (a missing one panics before any memory is touched), then each
+is handed the full address of its byte.  Result: the (memory, address) pairs in access order. -/
+def Bus.read24 (b : Bus) (bank addr : Nat) : Option (List (Nat × Nat)) :=
+  let a0 := bank % 256 * 65536 + addr % 65536
+  let a1 := bank % 256 * 65536 + (addr + 1) % 65536
+  let a2 := bank % 256 * 65536 + (addr + 2) % 65536
+  match b.route a0, b.route a1, b.route a2 with
+  | some m0, some m1, some m2 => some [(m0, a0), (m1, a1), (m2, a2)]
+  | _, _, _ => none
 
 def upd (d : Nat → UInt8) (i : Nat) (v : UInt8) : Nat → UInt8 := fun j => if j = i then v else d j
 
